@@ -298,6 +298,36 @@ class rule_001(rule.Rule):
 """
 
 
+LOCAL_RULE_DOC = """# -*- coding: utf-8 -*-
+from vsg import rule, token, violation
+
+
+class rule_%(num)s(rule.Rule):
+    def __init__(self):
+        super().__init__()
+        self.name = "%(name)s"
+        self.phase = %(phase)d
+        self.fixable = False
+        self.solution = "%(name)s_%(num)s: local rule objects to this design unit"
+
+    def analyze(self, oFile):
+        lWanted = [token.%(tok)s, token.library_clause.keyword, token.package_declaration.package_keyword, token.process_statement.process_keyword]
+        for oToi in oFile.get_tokens_matching(lWanted):
+            self.add_violation(violation.New(oToi.get_line_number(), oToi, self.solution))
+"""
+
+
+def local_rules_documented(rng):
+    """User rules written the way docs/localizing.rst shows (only `name` is set after construction):
+    two or three groups, two of which number their rule 001."""
+    kinds = [("localized", "001", "entity_declaration.entity_keyword"), ("naming", "001", "architecture_body.architecture_keyword"), ("naming", "002", "process_statement.process_keyword"), ("house", "001", "entity_declaration.entity_keyword")]
+    picks = rng.sample(kinds, rng.choice([2, 3, 4]))
+    out = []
+    for name, num, tok in picks:
+        out.append(sb_entry("lr/rule_%s_%s.py" % (name, num), (LOCAL_RULE_DOC % {"name": name, "num": num, "tok": tok, "phase": rng.choice([1, 7, 7])}).encode()))
+    return out
+
+
 def local_rules(rng):
     """Two or three user rule modules for a --local_rules directory (sandbox entries)."""
     kinds = [("locala", "entity_declaration.entity_keyword"), ("localb", "architecture_body.architecture_keyword"), ("localc", "process_statement.process_keyword"), ("locald", "entity_declaration.entity_keyword")]
